@@ -7,8 +7,12 @@
 (* lo .. lo+n-1 of content c; files (numbered archives, the data after the       *)
 (* directory tree in the _dir file) are sequences of segments.                   *)
 (*                                                                              *)
-(* state s = [sz, limit, single, mode, tree, foot, arch, disk, want, wantDisk]   *)
-(*   limit     dir_data_limit (None = -1); single = single-file VPK              *)
+(* state s = [sz, limit, fname, single, mode, tree, foot, arch, disk, want,       *)
+(*            wantDisk]                                                          *)
+(*   limit     dir_data_limit (None = -1)                                        *)
+(*   fname     the name of the archive file; single = ~IsDirName(fname): only a  *)
+(*             name that ends in "_dir.vpk" (exactly, lower case) is a directory  *)
+(*             archive, whose numbered archive i is the file ArchName(fname, i)   *)
 (*   mode      "none" (no object yet) | "r" | "w" | "a"                          *)
 (*   tree      name -> entry [c, plen, pc, idx, off, len]                        *)
 (*               c     content whose CRC is stored                               *)
@@ -30,6 +34,16 @@ PreMax == 65535                 \* the preload length field has 16 bits
 VMin(a, b) == IF a < b THEN a ELSE b
 
 Size(sz, c) == IF c = 0 THEN 0 ELSE sz[c]
+
+(* ---- archive file names -------------------------------------------------------------- *)
+DirSuffix == "_dir.vpk"
+IsDirName(f) == Len(f) >= Len(DirSuffix) /\ SubSeq(f, Len(f) - Len(DirSuffix) + 1, Len(f)) = DirSuffix
+\* what precedes "_dir.vpk" - possibly nothing at all
+Prefix(f) == SubSeq(f, 1, Len(f) - Len(DirSuffix))
+Digit(d) == SubSeq("0123456789", d + 1, d + 1)
+Pad3(i) == Digit((i \div 100) % 10) \o Digit((i \div 10) % 10) \o Digit(i % 10)
+\* the file that holds numbered archive i (i < 1000) of the directory archive named f
+ArchName(f, i) == Prefix(f) \o "_" \o Pad3(i) \o ".vpk"
 Seg(c, lo, n) == [c |-> c, lo |-> lo, n |-> n]
 BytesLen(q) == FoldLeft(LAMBDA a, g : a + g.n, 0, q)
 \* the segment of q that starts at byte offset off and has n bytes (<<>> if there is none)
